@@ -933,7 +933,13 @@ func (gqm *GroupQuotaManager) OnPodUpdate(newQuotaName, oldQuotaName string, new
 	gqm.hierarchyUpdateLock.RLock()
 	defer gqm.hierarchyUpdateLock.RUnlock()
 
-	oldQuotaName = gqm.getQuotaNameHoldingPodNoLock(oldQuotaName, oldPod)
+	// the pod is still parked in the default quota although both objects resolve to its own, meanwhile created, quota:
+	// it moves over now and has to take along what it holds there (a reservation made before the quota existed).
+	parkedMove := false
+	if holdingQuotaName := gqm.getQuotaNameHoldingPodNoLock(oldQuotaName, oldPod); holdingQuotaName != oldQuotaName {
+		parkedMove = oldQuotaName == newQuotaName
+		oldQuotaName = holdingQuotaName
+	}
 	if oldQuotaName == newQuotaName {
 		quotaInfo := gqm.getQuotaInfoByNameNoLock(newQuotaName)
 		if quotaInfo == nil {
@@ -975,10 +981,12 @@ func (gqm *GroupQuotaManager) OnPodUpdate(newQuotaName, oldQuotaName string, new
 		}
 	} else {
 		oldQuotaInfo := gqm.getQuotaInfoByNameNoLock(oldQuotaName)
+		keepReservation := false
 		if oldQuotaInfo != nil && oldQuotaInfo.IsPodExist(oldPod) {
 			isAssigned := gqm.getPodIsAssignedNoLock(oldQuotaName, oldPod)
 			if isAssigned {
 				gqm.updatePodUsedNoLock(oldQuotaName, oldPod, nil)
+				keepReservation = parkedMove
 			}
 			gqm.updatePodRequestNoLock(oldQuotaName, oldPod, nil)
 			gqm.updatePodCacheNoLock(oldQuotaName, oldPod, false)
@@ -988,7 +996,7 @@ func (gqm *GroupQuotaManager) OnPodUpdate(newQuotaName, oldQuotaName string, new
 		if newQuotaInfo != nil && !newQuotaInfo.IsPodExist(newPod) && !shouldBeIgnored(newPod) {
 			gqm.updatePodCacheNoLock(newQuotaName, newPod, true)
 			gqm.updatePodRequestNoLock(newQuotaName, nil, newPod)
-			if newPod.Spec.NodeName != "" && !util.IsPodTerminated(newPod) && !newQuotaInfo.CheckPodIsAssigned(newPod) {
+			if (keepReservation || newPod.Spec.NodeName != "") && !util.IsPodTerminated(newPod) && !newQuotaInfo.CheckPodIsAssigned(newPod) {
 				gqm.updatePodIsAssignedNoLock(newQuotaName, newPod, true)
 				gqm.updatePodUsedNoLock(newQuotaName, nil, newPod)
 			}
